@@ -36,7 +36,7 @@ def cli_args(target, settings):
 
 
 def cli_exec(root, target_rel, settings, cwd_rel="cwd", order_key=None, faults=(), crash_io=None,
-             tty=False, no_color=False, argform="abs"):
+             tty=False, no_color=False, argform="abs", tmpdir_abs=None):
     """Run the real click command against the sandbox `root`.
 
     target_rel: path of the file/dir argument relative to root (None = no argument: default ".").
@@ -57,6 +57,12 @@ def cli_exec(root, target_rel, settings, cwd_rel="cwd", order_key=None, faults=(
     old_cwd = os.getcwd()
     os.chdir(cwd)
     seams.set_terminal_env(root, no_color=no_color)
+    if tmpdir_abs:
+        os.makedirs(tmpdir_abs, exist_ok=True)
+        os.environ["TMPDIR"] = tmpdir_abs  # the temp directory on ANOTHER file system than the stylesheets
+        import tempfile
+
+        tempfile.tempdir = None
 
     if target_rel is None or (argform == "noarg" and os.path.normpath(os.path.join(root, target_rel)) == os.path.normpath(cwd)):
         target = None  # no argument: the command's default path "." (= the working directory)
